@@ -54,7 +54,14 @@ class LMix(LBase):
     v: int = 0
 
 
-LCLASSES: dict[str, type] = {c.__name__: c for c in (LBase, LLeaf, LSub, LTup, LList, LOpt, LReq, LMix)}
+@dataclass
+class LNarrow(LBase):
+    """A required child field that only accepts leaves."""
+
+    only: LLeaf
+
+
+LCLASSES: dict[str, type] = {c.__name__: c for c in (LBase, LLeaf, LSub, LTup, LList, LOpt, LReq, LMix, LNarrow)}
 
 
 def _is_recipe(val: Any) -> bool:
